@@ -108,7 +108,8 @@ class Gen:
         rng = self.rng
         kind = rng.choice(["sphere", "circle", "rectangle", "box_mitered", "box_mitered_centered", "box_exact",
                            "box_exact_centered", "rectangle_exact", "rectangle_centered_exact", "half_space",
-                           "cylinder_z", "cone_z", "cone_ang_z", "torus_z", "ring", "triangle"])
+                           "cylinder_z", "cone_z", "cone_ang_z", "torus_z", "ring", "triangle",
+                           "rounded_rectangle", "rounded_box"])
         if kind == "sphere":
             (hr, r), (hc, c) = self.num(self.pos()), self.vec(3)
             return Doc(self.call(kind, [hr] + hc),
@@ -130,6 +131,30 @@ class Gen:
             if kind == "rectangle_exact":
                 d = lambda p: box_sdf(p[:2], a, b)
             return Doc(self.call(kind, ha + hb), m, d, f"{kind}({a},{b})")
+        if kind == "rounded_rectangle":
+            # "A rectangle with rounded corners": the points within r of the rectangle shrunk by r on every side
+            # (documented domain: 2 r <= the shorter side); corners a, b unrelated in x and y
+            (ha, a) = self.vec(2)
+            hb, b = [], []
+            for i in range(2):
+                h, v = self.num(a[i] + self.pos(0.6, 2.5))
+                hb.append(h); b.append(v)
+            (hr, r) = self.num(rng.uniform(0.1, 0.5) * min(b[0] - a[0], b[1] - a[1]))
+            ia = [a[i] + r for i in range(2)]; ib = [b[i] - r for i in range(2)]
+            return Doc(self.call(kind, ha + hb + [hr]), lambda p: box_sdf(p[:2], ia, ib) - r, None,
+                       f"rounded_rectangle({a},{b},{r})")
+        if kind == "rounded_box":
+            # "Rounded box with the given bounds and radius (as a 0-1 fraction)": radius = fraction * shortest side / 2
+            (ha, a) = self.vec(3)
+            hb, b = [], []
+            for i in range(3):
+                h, v = self.num(a[i] + self.pos(0.6, 2.5))
+                hb.append(h); b.append(v)
+            (hf, fr) = self.num(rng.uniform(0.1, 0.9))
+            r = fr * min(b[i] - a[i] for i in range(3)) / 2
+            ia = [a[i] + r for i in range(3)]; ib = [b[i] - r for i in range(3)]
+            return Doc(self.call(kind, ha + hb + [hf]), lambda p: box_sdf(p, ia, ib) - r,
+                       lambda p: box_sdf(p, ia, ib) - r, f"rounded_box({a},{b},{fr})")
         if kind == "rectangle_centered_exact":
             (hs, s), (hc, c) = self.vec(2, self.pos), self.vec(2)
             a = [c[i] - s[i] / 2 for i in range(2)]; b = [c[i] + s[i] / 2 for i in range(2)]
